@@ -36,8 +36,13 @@ import (
 // GOMAXPROCS values and ambient process state (save under a, load/export/import under b), child processes with another
 // CPU affinity and process environment, and golden key files (/verif/golden/c19.json) written once, earlier.
 //
+// Plus (seq_test.go): OPERATION SEQUENCES on one key directory (every history of create / load / export / import /
+// junk import / delete-by-hand up to a depth, no state merging) and on two directories (export → import between them,
+// explicit-state search), against a reference model of what each directory holds.
+//
 // Clauses: panic, wrong-passphrase-rejected, right-passphrase-loads-same-key, loaded-signer-consistent,
-// legacy-passphrase-distinguishes, export-import, loads-in-other-environment, golden-keyfile-loads, golden-address.
+// legacy-passphrase-distinguishes, export-import, loads-in-other-environment, golden-keyfile-loads, golden-address,
+// saved-key-survives-later-operations.
 // Tags are computed from the INPUT of a case only (how the file was produced, which field the mutated byte lies in,
 // what the mutated file decodes to, how the two passphrases relate) — never from an error text or a panic value.
 
@@ -75,7 +80,7 @@ type mutation struct {
 
 // tcase is one explored input; it is also the replayable history of a violation ([]byte fields are base64 in JSON).
 type tcase struct {
-	Section    string   `json:"section"` // pairs | corrupt | roundtrip | legacy-derive | environment | golden
+	Section    string   `json:"section"` // pairs | corrupt | roundtrip | legacy-derive | environment | golden | sequence
 	Op         string   `json:"op"`      // load | export | roundtrip | derive
 	Origin     string   `json:"origin"`  // created (CreateFileSystemSigner) | imported (ImportPrivateKey) | legacy (harness-written, no salt)
 	File       []byte   `json:"file"`    // signer.json as written, before the mutation
@@ -94,9 +99,15 @@ type tcase struct {
 	LoadEnv string `json:"load_env,omitempty"` // name of the environment it is opened in
 	Golden  string `json:"golden,omitempty"`   // golden section: vector name
 	Addr    []byte `json:"addr,omitempty"`     // golden section: the address recorded when the file was written
+	// sequence section (seq_test.go): the operations, executed in order on fresh directories SeqDirs
+	SeqDirs []string `json:"seq_dirs,omitempty"`
+	Seq     []seqOp  `json:"seq,omitempty"`
 }
 
 func (c *tcase) describe() string {
+	if c.Section == "sequence" {
+		return c.describeSeq()
+	}
 	m := "unmutated"
 	switch c.Mut.Kind {
 	case "truncate":
@@ -370,6 +381,13 @@ func (c *tcase) violation(clause, msg string) vf.Violation {
 }
 
 func evaluate(c *tcase, dir string) (v verdict) {
+	if c.Section == "sequence" {
+		v, _, _, notes := runSequence(c, dir)
+		for _, n := range notes {
+			seqNote(n)
+		}
+		return v
+	}
 	add := func(clause, msg string) {
 		v.viol = append(v.viol, c.violation(clause, msg))
 		if v.outcome == "" {
@@ -666,6 +684,14 @@ func corruptions(section, origin string, b base, saveName string, p []byte, ops 
 	return cs
 }
 
+func pow(b, e int) int {
+	n := 1
+	for i := 0; i < e; i++ {
+		n *= b
+	}
+	return n
+}
+
 func TestCheck(t *testing.T) {
 	r := vf.Start("C19", "fault_enumeration")
 	r.Assume = []string{
@@ -674,6 +700,8 @@ func TestCheck(t *testing.T) {
 		"legacy (salt-less) files are AES-256-GCM under fallbackDeriveKey(passphrase, 32) with the same JSON field names; written by the harness through a verif hook exposing that function",
 		"the golden key files in /verif/golden/c19.json were written by the pinned tree (throw-away keys, seeded randomness) and are what an earlier process left on disk; child processes are this test binary re-executed under taskset / with other variables",
 		"a mutated file that still decodes to exactly the original key material (base64 trailing bits, JSON key case) is allowed to load",
+		"operation sequences: the two passphrases P and Q are interchangeable for the code (both non-empty and shorter than 32 bytes) and so are the two directories, which justifies executing one history of each pair that differs only by swapping them; the empty passphrase of the thorough tier is not part of that symmetry",
+		"operation sequences: the code under test keeps no state outside the key directory (no process-wide cache or registry), which is what lets the two-directory search merge histories with equal model states; the one-directory enumeration does not merge and does not rely on it. The model follows what a call reports: whether CreateFileSystemSigner must refuse an occupied directory is not judged (it does, on this tree: counted as an outcome)",
 		"keys, salts and nonces come from a seeded deterministic source (testing/cryptotest.SetGlobalRandom) so that the enumerated files are the same on every run",
 	}
 	cryptotest.SetGlobalRandom(t, 19)
@@ -811,13 +839,28 @@ func TestCheck(t *testing.T) {
 	if legacy[0].ok { // only once the legacy derivation accepts the empty passphrase
 		cases = append(cases, corruptions("corrupt", "legacy", legacy[0], "empty", []byte{}, []string{"load"}, thorough, nil)...)
 	}
+	// 7a: operation sequences on one directory, every history of the depth, no state merging (after the
+	// cheap cases and before the Argon2-bound corruptions, so that a deadline cap cuts those first)
+	seqPasses := []string{"P", "Q"}
+	seqDepth1 := vf.Pick(r, 3, 4)
+	seqAlpha1 := seqAlphabet([]string{"a"}, seqPasses)
+	nSeq0 := len(cases)
+	cases = append(cases, seqOneDirCases(seqAlpha1, seqDepth1)...)
+	var seqAlpha1E []seqOp
+	if thorough {
+		// a third passphrase (the empty one) at the quick depth
+		seqAlpha1E = seqAlphabet([]string{"a"}, []string{"P", "Q", "E"})
+		cases = append(cases, seqOneDirCases(seqAlpha1E, 3)...)
+	}
+	counts["sequence_one_directory_histories"] = len(cases) - nSeq0
+
 	if fixedCreated.ok {
 		cases = append(cases, corruptions("corrupt", "created", fixedCreated, "fixed", fixedPass, []string{"load", "export"}, thorough, map[string]bool{"export": true})...)
 	}
 	if created[0].ok { // modern file saved under the empty passphrase
 		cases = append(cases, corruptions("corrupt", "created", created[0], "empty", []byte{}, []string{"load"}, thorough, map[string]bool{"load": true})...)
 	}
-	counts["corruption_cases"] = len(cases) - n0
+	counts["corruption_cases"] = len(cases) - n0 - counts["sequence_one_directory_histories"]
 
 	// 6: the saved file opens in another environment — process-global switches, hence serial and before any worker starts
 	envStart := time.Now()
@@ -827,8 +870,6 @@ func TestCheck(t *testing.T) {
 	}
 	envSeconds := time.Since(envStart).Seconds()
 
-	// run
-	deadline := time.Now().Add(vf.Pick(r, 50*time.Second, 14*time.Minute))
 	workers := runtime.NumCPU()
 	if workers > 16 {
 		workers = 16
@@ -836,6 +877,27 @@ func TestCheck(t *testing.T) {
 	var next, done, nontrivial, engine atomic.Int64
 	done.Add(envRes.evaluations)
 	nontrivial.Add(envRes.evaluations) // every environment case is an intact file that reaches key derivation
+
+	// 7b: operation sequences on two directories, explicit-state search (its goroutines have ended when it returns)
+	seqStart := time.Now()
+	seqDepth2 := vf.Pick(r, 3, 5)
+	seqPasses2 := vf.Pick(r, seqPasses, []string{"P", "Q", "E"})
+	nSeqSample := 0
+	seq2 := seqTwoDirSearch(r, root, seqPasses2, seqDepth2, workers, vf.Pick(r, 40*time.Second, 6*time.Minute), tally, func(x string) {
+		if nSeqSample++; nSeqSample <= 1 {
+			r.Sample(x)
+		}
+	})
+	if seq2.engineErr != "" {
+		r.EngineError(seq2.engineErr)
+	}
+	done.Add(seq2.executed)
+	nontrivial.Add(seq2.nontriv)
+	seq2Ops, seq2KDF := seqOpsExecuted.Load(), seqKDF.Load()
+	seq2Seconds := time.Since(seqStart).Seconds()
+
+	// run
+	deadline := time.Now().Add(vf.Pick(r, 50*time.Second, 14*time.Minute))
 	var capped atomic.Bool
 	var wg sync.WaitGroup
 	for w := 0; w < workers; w++ {
@@ -875,7 +937,7 @@ func TestCheck(t *testing.T) {
 					nontrivial.Add(1)
 				}
 				done.Add(1)
-				if i%997 == 3 || (c.Section == "roundtrip" && i%41 == 0) {
+				if i%997 == 3 || (c.Section == "roundtrip" && i%41 == 0) || (c.Section == "sequence" && i%389 == 200) {
 					r.Sample(c.describe() + " => " + v.outcome)
 				}
 			}
@@ -885,7 +947,10 @@ func TestCheck(t *testing.T) {
 
 	var caps []string
 	if capped.Load() {
-		caps = append(caps, fmt.Sprintf("deadline reached after %d of %d worker cases", done.Load()-envRes.evaluations, len(cases)))
+		caps = append(caps, fmt.Sprintf("deadline reached after %d of %d worker cases", done.Load()-envRes.evaluations-seq2.executed, len(cases)))
+	}
+	if seq2.stats.Capped != "" {
+		caps = append(caps, "two-directory sequence search: "+seq2.stats.Capped)
 	}
 	names := make([]string, len(P))
 	for i, p := range P {
@@ -903,14 +968,28 @@ func TestCheck(t *testing.T) {
 		"workers":                 workers,
 		"golden_vectors":          len(golden.Vectors),
 		"environment_phase_s":     envSeconds,
+		"sequence_one_directory": map[string]any{
+			"passphrases": seqPasses, "alphabet": alphabetNames(seqAlpha1), "depth": seqDepth1,
+			"histories_before_symmetry_reduction": pow(len(seqAlpha1), seqDepth1), "histories": counts["sequence_one_directory_histories"],
+			"symmetry":                           "of two histories that differ only by swapping P with Q the one whose first passphrase is P is executed",
+			"thorough_third_passphrase_alphabet": len(seqAlpha1E), "thorough_third_passphrase_depth": vf.Pick(r, 0, 3),
+			"operations_executed": seqOpsExecuted.Load() - seq2Ops, "argon2_key_derivations_by_the_model": seqKDF.Load() - seq2KDF, "state_merging": "none: every history is executed in full on fresh directories",
+		},
+		"sequence_two_directories": map[string]any{
+			"passphrases": seqPasses2, "alphabet": seq2.alphabet, "depth": seqDepth2, "depth_completed": seq2.stats.DepthDone,
+			"model_states": seq2.stats.States, "histories_generated": seq2.stats.Transitions, "histories_executed": seq2.executed, "new_states_per_level": seq2.stats.PerLevel,
+			"symmetry":            "of histories that differ only by swapping P with Q, or directory a with b, the one whose first passphrase is P and whose first operation works on a is executed",
+			"operations_executed": seq2Ops, "argon2_key_derivations_by_the_model": seq2KDF, "seconds": seq2Seconds,
+		},
+		"sequence_not_judged_observations": seqNotesSnapshot(),
 	}
 	for k, v := range envRes.bounds {
 		bounds[k] = v
 	}
 	r.Finish(vf.Coverage{
 		Evaluations: done.Load(), DistinctNontrivial: nontrivial.Load(), States: int64(r.DistinctOutcomes()), Transitions: done.Load(),
-		Rule:       "plain nested loops, no sampling: every ordered (save,load) pair of the passphrase set × {created by the real writer, legacy salt-less} × {load, export}; every truncation length and every (position, replacement byte ≠ original) of signer.json, loaded/exported with the right passphrase; export→import→load/export for every save passphrase × import passphrases × {fresh, overwrite}; every ordered (written-in, opened-in) pair of environments within the GOMAXPROCS group and within the ambient (variables, cwd, umask) group, the check's process ↔ each re-executed child process, and every golden key file in every environment (serial phase before the workers; process globals restored afterwards). Each case is a distinct input by construction; non-trivial = the input file still decodes as the key-file JSON (so key derivation and decryption are reached) or is an unmutated pair/roundtrip; states = distinct (section, op, origin, result class) outcomes",
-		Exhaustive: !capped.Load(), Caps: caps, Bounds: bounds,
+		Rule:       "plain nested loops, no sampling: every ordered (save,load) pair of the passphrase set × {created by the real writer, legacy salt-less} × {load, export}; every truncation length and every (position, replacement byte ≠ original) of signer.json, loaded/exported with the right passphrase; export→import→load/export for every save passphrase × import passphrases × {fresh, overwrite}; every ordered (written-in, opened-in) pair of environments within the GOMAXPROCS group and within the ambient (variables, cwd, umask) group, the check's process ↔ each re-executed child process, and every golden key file in every environment (serial phase before the workers; process globals restored afterwards); operation sequences: every history of exactly `depth` operations over the one-directory alphabet {create, load, export, import of a fixed key, export→import in place} × passphrases ∪ {junk import, delete by hand} executed in full without state merging and judged after every step against the reference model (what the directory holds, under which passphrase; the bytes of every key file are compared after every step, a difference after an operation that is not a successful write is settled by loading the saved key), and an explicit-state search (explore.BFS, histories merged on equal model states) over the same operations on two directories plus export(src)→import(dst) in both directions. Each case is a distinct input by construction; non-trivial = the input file still decodes as the key-file JSON (so key derivation and decryption are reached) or is an unmutated pair/roundtrip, or a sequence with at least one successful write; states = distinct (section, op, origin, result class) outcomes",
+		Exhaustive: !capped.Load() && seq2.stats.Capped == "", Caps: caps, Bounds: bounds,
 		Extra: map[string]any{"oracle_failures_by_clause_and_input_features": breakdown},
 	})
 }
